@@ -291,7 +291,7 @@ pub fn cli_worker(ctx: &mut Ctx) {
     let probe = LintGroup::new_curated(fst.clone(), Dialect::American);
     let all_rules: Vec<String> = probe.iter_keys().map(|s| s.to_string()).collect();
     let self_overlapping = ["RepeatedWords", "SpellCheck", "AnA", "Spaces", "SentenceCapitalization", "LongSentences", "CorrectNumberSuffix", "UnclosedQuotes", "Matcher", "EllipsisLength", "NumberSuffixCapitalization"];
-    let n = ctx.share(640, 40_000);
+    let n = ctx.share(640, 16_000);
     let mut rng = ctx.rng("c13cli");
     let dialects = [(Dialect::American, "American"), (Dialect::British, "British"), (Dialect::Australian, "Australian"), (Dialect::Canadian, "Canadian")];
     for _ in 0..n {
